@@ -229,11 +229,14 @@ pub struct SharedSpec {
     pub ops_seed: u64,
     pub ops_per_thread: usize,
     pub with_prepare: bool,
+    /// the threads share a Module created for this scenario that nothing has used yet (lazily
+    /// initialised state inside a handle would otherwise be warm from earlier runs)
+    pub fresh_module: bool,
 }
 
 impl SharedSpec {
     pub fn to_json(&self) -> Value {
-        json!({"n": self.n, "threads": self.threads, "ops_seed": self.ops_seed, "ops_per_thread": self.ops_per_thread, "with_prepare": self.with_prepare})
+        json!({"n": self.n, "threads": self.threads, "ops_seed": self.ops_seed, "ops_per_thread": self.ops_per_thread, "with_prepare": self.with_prepare, "fresh_module": self.fresh_module})
     }
     pub fn from_json(v: &Value) -> SharedSpec {
         let u = |k: &str| v[k].as_u64().unwrap();
@@ -243,6 +246,7 @@ impl SharedSpec {
             ops_seed: u("ops_seed"),
             ops_per_thread: u("ops_per_thread") as usize,
             with_prepare: v["with_prepare"].as_bool().unwrap_or(false),
+            fresh_module: v["fresh_module"].as_bool().unwrap_or(false),
         }
     }
 }
@@ -697,6 +701,8 @@ macro_rules! backend_impl {
                     use poulpy_core::layouts::GLWEPlaintext;
                     use poulpy_core::{GLWEDecrypt, GLWEEncryptSk};
                     let c = ctx(spec.n, 1);
+                    let fresh_module: Option<Module<BE>> = if spec.fresh_module { Some(Module::<BE>::new(c.n as u64)) } else { None };
+                    let module: &Module<BE> = fresh_module.as_ref().unwrap_or(&c.module);
                     let fresh_key = if spec.with_prepare { Some(make_bdd_ctx(c)) } else { None };
                     let b: Option<&BddCtx> = fresh_key.as_deref();
                     let h0 = inputs_hash(c);
@@ -727,26 +733,26 @@ macro_rules! backend_impl {
                                     let enc = EncryptionLayout::new_from_default_sigma(c.glwe_infos).unwrap();
                                     let mut xa = Source::new([(*arg & 0xff) as u8; 32]);
                                     let mut xe = Source::new([((*arg >> 8) & 0xff) as u8; 32]);
-                                    c.module.glwe_encrypt_zero_sk(&mut ct, &c.sk_prep, &enc, &mut xe, &mut xa, scratch.borrow());
+                                    module.glwe_encrypt_zero_sk(&mut ct, &c.sk_prep, &enc, &mut xe, &mut xa, scratch.borrow());
                                     crate::util::fnv(&ct.data().data)
                                 }
                                 1 => {
                                     let mut pt: GLWEPlaintext<Vec<u8>> = GLWEPlaintext::alloc_from_infos(&c.glwe_infos);
                                     let src = if arg & 1 == 0 { &c.ct_a } else { &c.ct_b };
-                                    c.module.glwe_decrypt(src, &mut pt, &c.sk_prep, scratch.borrow());
+                                    module.glwe_decrypt(src, &mut pt, &c.sk_prep, scratch.borrow());
                                     crate::util::fnv(&pt.data().data)
                                 }
                                 2 => {
                                     let mut res: GLWE<Vec<u8>> = GLWE::alloc_from_infos(&c.glwe_infos);
                                     let bit = c.inputs.get_bit((*arg % 8) as usize);
-                                    c.module.cmux(&mut res, &c.ct_a, &c.ct_b, &bit, scratch.borrow());
+                                    module.cmux(&mut res, &c.ct_a, &c.ct_b, &bit, scratch.borrow());
                                     crate::util::fnv(&res.data().data)
                                 }
                                 3 => {
                                     let circuit = SimCircuit::generate(*arg, 1 + (*arg % 3) as usize, 8);
                                     let mut out: Vec<GLWE<Vec<u8>>> =
                                         (0..circuit.bits.len()).map(|_| GLWE::alloc_from_infos(&c.glwe_infos)).collect();
-                                    c.module.execute_bdd_circuit(&mut out, &c.inputs, &circuit, scratch.borrow());
+                                    module.execute_bdd_circuit(&mut out, &c.inputs, &circuit, scratch.borrow());
                                     out.iter().fold(0u64, |a, o| crate::util::fnv_mix(a, crate::util::fnv(&o.data().data)))
                                 }
                                 4 => {
@@ -762,20 +768,20 @@ macro_rules! backend_impl {
                                     use poulpy_core::GLWEKeyswitch;
                                     let mut res: GLWE<Vec<u8>> = GLWE::alloc_from_infos(&c.glwe_infos);
                                     let src = if arg & 1 == 0 { &c.ct_a } else { &c.ct_b };
-                                    c.module.glwe_keyswitch(&mut res, src, &c.shared_ksk, scratch.borrow());
+                                    module.glwe_keyswitch(&mut res, src, &c.shared_ksk, scratch.borrow());
                                     crate::util::fnv(&res.data().data)
                                 }
                                 6 => {
                                     use poulpy_core::GLWEExternalProduct;
                                     let mut res: GLWE<Vec<u8>> = GLWE::alloc_from_infos(&c.glwe_infos);
                                     let bit = c.inputs.get_bit((*arg % 8) as usize);
-                                    c.module.glwe_external_product(&mut res, &c.ct_b, &bit, scratch.borrow());
+                                    module.glwe_external_product(&mut res, &c.ct_b, &bit, scratch.borrow());
                                     crate::util::fnv(&res.data().data)
                                 }
                                 7 => {
                                     use poulpy_core::GLWEAutomorphism;
                                     let mut res: GLWE<Vec<u8>> = GLWE::alloc_from_infos(&c.glwe_infos);
-                                    c.module.glwe_automorphism(&mut res, &c.ct_a, &c.shared_atk, scratch.borrow());
+                                    module.glwe_automorphism(&mut res, &c.ct_a, &c.shared_atk, scratch.borrow());
                                     crate::util::fnv(&res.data().data)
                                 }
                                 8 => {
@@ -783,7 +789,7 @@ macro_rules! backend_impl {
                                     let mut infos = c.glwe_infos;
                                     infos.base2k = Base2K(9 + (*arg % 5) as u32);
                                     let mut res: GLWE<Vec<u8>> = GLWE::alloc_from_infos(&infos);
-                                    c.module.glwe_normalize(&mut res, &c.ct_a, scratch.borrow());
+                                    module.glwe_normalize(&mut res, &c.ct_a, scratch.borrow());
                                     crate::util::fnv(&res.data().data)
                                 }
                                 _ => {
@@ -799,8 +805,8 @@ macro_rules! backend_impl {
                                         _ => {}
                                     }
                                     let mut res: FheUintPrepared<DeviceBuf<BE>, u8, BE> =
-                                        FheUintPrepared::alloc_from_infos(&c.module, &gi);
-                                    c.module
+                                        FheUintPrepared::alloc_from_infos(module, &gi);
+                                    module
                                         .fhe_uint_prepare_custom(&mut res, &b.word8, (*arg % 8) as usize, 1, &b.key, scratch.borrow());
                                     (0..8).fold(0u64, |a, i| {
                                         let g = res.get_bit(i);
